@@ -287,7 +287,7 @@ func upExec(c *hlib.RunCtx, t *simrt.Tape) (*hlib.Violation, int) {
 			if fc.Op == "rename" && fc.Path2 != "" {
 				dst = fc.Path2
 			}
-			if w, kind := weekOfReportPath(dst); kind != "" && !strings.Contains(filepath.Base(dst), ".tmp") && (fc.Op == "link" || fc.Op == "rename" || fc.Op == "create-excl" || fc.Op == "open-create" || fc.Op == "writefile-open") {
+			if w, kind := weekOfReportPath(dst); kind != "" && !strings.Contains(filepath.Base(dst), ".tmp") && (fc.Op == "link" || fc.Op == "rename" || fc.Op == "create-excl" || fc.Op == "open-create" || fc.Op == "writefile-open" || fc.Op == "create" || fc.Op == "open-trunc") {
 				if _, ok := reportAt[w]; !ok {
 					reportAt[w] = fc.Idx
 				}
@@ -434,6 +434,17 @@ func (m *machine) checkNoInflation() {
 			if !bytes.HasPrefix(mf.data, []byte(refformat.Prefix)) {
 				continue
 			}
+			return
+		}
+		namesOK := true
+		if mf.dec != nil {
+			for n := range mf.dec.Counts {
+				if !utf8.ValidString(n) {
+					namesOK = false // (likewise a damaged name: the report's JSON replaces the byte, the key no longer compares equal)
+				}
+			}
+		}
+		if !namesOK {
 			return
 		}
 		if mf.dec != nil && !utf8.ValidString(mf.dec.MetaRaw) {
